@@ -4,16 +4,49 @@ import PycModel.Parser.Stmt
 
 `SeesT s toks`: the tokens the parser will obtain from state `s`, in order, are `toks` (class and
 spelling) - first the buffered ones (`_TokenStream._buffer[_index:]`), then those still to be lexed.
-For the part still to be lexed, lexing must be scope-neutral: no braces, no identifier that is
-currently a typedef name (so the class is not rewritten to TYPEID and the scope stack stays as it is).
+The scope stack must hold no typedef name (`AllFalse`): then lexing never rewrites an identifier
+to TYPEID, whatever braces are lexed on the way (they push and pop scopes at lex time).
 -/
 namespace PycModel.View
 open PycModel
 
 abbrev Tk := String × String
 
-def neutral (scopes : List Scope) (t : Tk) : Prop :=
-  t.1 ≠ "LBRACE" ∧ t.1 ≠ "RBRACE" ∧ (t.1 = "ID" → isTypeInScopes scopes t.2 = false)
+/-- no scope declares a typedef name -/
+def AllFalse (scopes : List Scope) : Prop := ∀ sc ∈ scopes, ∀ e ∈ sc, e.2 = false
+
+theorem AllFalse.noType {scopes : List Scope} (h : AllFalse scopes) (n : String) :
+    isTypeInScopes scopes n = false := by
+  induction scopes with
+  | nil => rfl
+  | cons sc rest ih =>
+    simp only [isTypeInScopes]
+    cases hl : scopeLookup sc n with
+    | none => exact ih (fun s hs => h s (by simp [hs]))
+    | some b =>
+      simp only [scopeLookup, Option.map_eq_some_iff] at hl
+      obtain ⟨e, he, rfl⟩ := hl
+      exact h sc (by simp) e (List.mem_of_find?_eq_some he)
+
+/-- what lexing a token of class `k` does to the scope stack (`on_lbrace_func` / `on_rbrace_func`) -/
+def lexScopes (k : String) (scopes : List Scope) : List Scope :=
+  if k == "LBRACE" then [] :: scopes
+  else if k == "RBRACE" then (match scopes with | _ :: b :: rest => b :: rest | sc => sc)
+  else scopes
+
+theorem AllFalse.lex {scopes : List Scope} (h : AllFalse scopes) (k : String) : AllFalse (lexScopes k scopes) := by
+  unfold lexScopes
+  split
+  · intro sc hsc; simp only [List.mem_cons] at hsc
+    rcases hsc with rfl | hsc
+    · intro e he; simp at he
+    · exact h sc hsc
+  · split
+    · split
+      · rename_i a b rest
+        exact fun sc hsc => h sc (by simp only [List.mem_cons] at hsc ⊢; rcases hsc with h' | h' <;> simp [h'])
+      · exact h
+    · exact h
 
 /-- `e`: the end-of-input marker (`None`) has already been lexed into the buffer -/
 structure SeesT (s : PState) (toks : List Tk) : Prop where
@@ -22,7 +55,7 @@ structure SeesT (s : PState) (toks : List Tk) : Prop where
     s.raw = rt.map (fun t => SEv.tok t.1 t.2) ++ [.eof] ∧
     toks = bt.map (fun t => (t.kind, t.val)) ++ rt ∧
     (e = true → rt = []) ∧
-    (∀ t ∈ rt, neutral s.scopes t) ∧
+    AllFalse s.scopes ∧
     (e = false → s.pulled = s.buf.size)
   idx_le : s.idx ≤ s.buf.size
   /-- a token's `idx` is its position in the buffer (= in the stripped event stream) -/
@@ -31,21 +64,31 @@ structure SeesT (s : PState) (toks : List Tk) : Prop where
 theorem bind_apply {α β} (m : P α) (f : α → P β) (s : PState) :
     (m >>= f) s = match m s with | .ok a s' => f a s' | .err e => .err e := rfl
 
-/-- lexing one scope-neutral token -/
-theorem lexToken_neutral (s : PState) (k v : String) (r : List SEv) (hr : s.raw = .tok k v :: r)
-    (hn : neutral s.scopes (k, v)) :
+/-- lexing one token when no typedef name is in scope -/
+theorem lexToken_tok (s : PState) (k v : String) (r : List SEv) (hr : s.raw = .tok k v :: r)
+    (hn : AllFalse s.scopes) :
     lexToken s = .ok (some ⟨k, v, s.pulled⟩)
-      { s with raw := r, pulled := s.pulled + 1, fileRef := s.pulled + 1, lexCalls := s.lexCalls + 1 } := by
-  obtain ⟨h1, h2, h3⟩ := hn
-  simp only at h1 h2 h3
+      { s with raw := r, pulled := s.pulled + 1, fileRef := s.pulled + 1, lexCalls := s.lexCalls + 1,
+               scopes := lexScopes k s.scopes } := by
   unfold lexToken
   rw [hr]
   simp only
-  simp [h1, h2]
-  intro hid ht
-  rw [h3 hid] at ht
-  cases ht
+  have hk : (if (k == "ID" && isTypeInScopes s.scopes v) = true then "TYPEID" else k) = k := by
+    simp [hn.noType v]
+  rw [hk]
+  unfold lexScopes
+  by_cases h1 : k = "LBRACE"
+  · subst h1; simp
+  · by_cases h2 : k = "RBRACE"
+    · subst h2
+      cases hs : s.scopes with
+      | nil => simp [hs]
+      | cons a t => cases t <;> simp [hs]
+    · simp [h1, h2]
 
+theorem SeesT.allFalse {s : PState} {toks : List Tk} (h : SeesT s toks) : AllFalse s.scopes := by
+  obtain ⟨⟨_, _, _, _, _, _, _, hn, _⟩, _, _⟩ := h
+  exact hn
 
 theorem getElem?_of_drop_cons {α} {l : List α} {i : Nat} {x : α} {xs : List α}
     (h : l.drop i = x :: xs) : l[i]? = some x := by
@@ -94,7 +137,7 @@ theorem pos_push_none {buf : Array (Option PTok)}
 /-- `peek` on a state that sees at least one token: returns it (its index is the read position),
 consumes nothing -/
 theorem peek_spec (s : PState) (k v : String) (toks : List Tk) (h : SeesT s ((k, v) :: toks)) :
-    ∃ s', peek s = .ok (some ⟨k, v, s.idx⟩) s' ∧ SeesT s' ((k, v) :: toks) ∧ s'.scopes = s.scopes ∧ s'.idx = s.idx ∧
+    ∃ s', peek s = .ok (some ⟨k, v, s.idx⟩) s' ∧ SeesT s' ((k, v) :: toks) ∧ AllFalse s'.scopes ∧ s'.idx = s.idx ∧
       BufExt s s' ∧ s.buf.size ≤ s'.buf.size := by
   obtain ⟨⟨bt, rt, e, hbuf, hraw, htoks, he, hneu, hpul⟩, hle, hpos⟩ := h
   cases bt with
@@ -108,7 +151,7 @@ theorem peek_spec (s : PState) (k v : String) (toks : List Tk) (h : SeesT s ((k,
       have := (Array.getElem?_eq_some_iff.mp hget).1
       omega
     have hti := hpos _ _ hget
-    refine ⟨{ s with ticks := s.ticks + 1 }, ?_, ⟨⟨t :: bt', rt, e, hbuf, hraw, ?_, he, hneu, hpul⟩, hle, hpos⟩, rfl, rfl, fun j _ => rfl, Nat.le_refl _⟩
+    refine ⟨{ s with ticks := s.ticks + 1 }, ?_, ⟨⟨t :: bt', rt, e, hbuf, hraw, ?_, he, hneu, hpul⟩, hle, hpos⟩, hneu, rfl, fun j _ => rfl, Nat.le_refl _⟩
     · simp only [peek, peekK, fill]
       simp [hlt, hget]
       cases t; simp_all
@@ -122,18 +165,18 @@ theorem peek_spec (s : PState) (k v : String) (toks : List Tk) (h : SeesT s ((k,
     have hsz := drop_nil_size hbuf hle
     have hp := hpul rfl
     simp only [List.map_cons, List.cons_append] at hraw
-    have hn : neutral s.scopes (k, v) := hneu (k, v) (by simp)
     let s0 : PState := { s with ticks := s.ticks + 1 }
-    have hlex := lexToken_neutral s0 k v _ hraw hn
+    have hlex := lexToken_tok s0 k v _ hraw hneu
     let tok : PTok := ⟨k, v, s.pulled⟩
     refine ⟨{ s0 with raw := toks.map (fun t => SEv.tok t.1 t.2) ++ [.eof], pulled := s.pulled + 1,
                        fileRef := s.pulled + 1, lexCalls := s.lexCalls + 1,
-                       buf := s.buf.push (some tok) }, ?_,
-            ⟨⟨[tok], toks, false, ?_, rfl, rfl, by simp, ?_, ?_⟩, ?_, ?_⟩, rfl, rfl, bufExt_push s _ _ rfl, by simp⟩
+                       buf := s.buf.push (some tok), scopes := lexScopes k s.scopes }, ?_,
+            ⟨⟨[tok], toks, false, ?_, rfl, rfl, by simp, ?_, ?_⟩, ?_, ?_⟩, hneu.lex k, rfl, bufExt_push s _ _ rfl, by simp⟩
     · have hlt : s0.buf.size < s0.idx + 1 := by show s.buf.size < s.idx + 1; omega
       have hfill : fill 1 1 { s with ticks := s.ticks + 1 } = .ok ()
           { s0 with raw := toks.map (fun t => SEv.tok t.1 t.2) ++ [.eof], pulled := s.pulled + 1,
-                    fileRef := s.pulled + 1, lexCalls := s.lexCalls + 1, buf := s.buf.push (some tok) } := by
+                    fileRef := s.pulled + 1, lexCalls := s.lexCalls + 1, buf := s.buf.push (some tok),
+                    scopes := lexScopes k s.scopes } := by
         show fill 1 1 s0 = _
         simp only [fill, hlt, ↓reduceIte, hlex]
         rfl
@@ -144,7 +187,7 @@ theorem peek_spec (s : PState) (k v : String) (toks : List Tk) (h : SeesT s ((k,
       simp [hsz, tok, s0, hp]
     · show (s.buf.push (some tok)).toList.drop s.idx = _
       simp [hsz]
-    · intro t ht; exact hneu t (by simp [ht])
+    · exact hneu.lex k
     · intro _; show s.pulled + 1 = (s.buf.push (some tok)).size; simp; omega
     · show s.idx ≤ (s.buf.push (some tok)).size
       simp; omega
@@ -152,7 +195,7 @@ theorem peek_spec (s : PState) (k v : String) (toks : List Tk) (h : SeesT s ((k,
 
 /-- `advance` on a state that sees at least one token: returns it and moves past it -/
 theorem advance_spec (s : PState) (k v : String) (toks : List Tk) (h : SeesT s ((k, v) :: toks)) :
-    ∃ s', advance s = .ok ⟨k, v, s.idx⟩ s' ∧ SeesT s' toks ∧ s'.scopes = s.scopes ∧ s'.idx = s.idx + 1 ∧
+    ∃ s', advance s = .ok ⟨k, v, s.idx⟩ s' ∧ SeesT s' toks ∧ AllFalse s'.scopes ∧ s'.idx = s.idx + 1 ∧
       BufExt s s' ∧ s.buf.size ≤ s'.buf.size ∧ s'.buf[s.idx]? = some (some ⟨k, v, s.idx⟩) := by
   obtain ⟨⟨bt, rt, e, hbuf, hraw, htoks, he, hneu, hpul⟩, hle, hpos⟩ := h
   cases bt with
@@ -166,7 +209,7 @@ theorem advance_spec (s : PState) (k v : String) (toks : List Tk) (h : SeesT s (
     have hlt : ¬ s.buf.size < s.idx + 1 := by omega
     have hti := hpos _ _ hget
     refine ⟨{ s with ticks := s.ticks + 1, idx := s.idx + 1 }, ?_,
-      ⟨⟨bt', rt, e, ?_, hraw, htl, he, hneu, hpul⟩, ?_, hpos⟩, rfl, rfl, fun j _ => rfl, Nat.le_refl _, ?_⟩
+      ⟨⟨bt', rt, e, ?_, hraw, htl, he, hneu, hpul⟩, ?_, hpos⟩, hneu, rfl, fun j _ => rfl, Nat.le_refl _, ?_⟩
     · simp only [advance, nextTok, fill, bind_apply]
       simp [hlt, hget]
       cases t; simp_all
@@ -187,18 +230,18 @@ theorem advance_spec (s : PState) (k v : String) (toks : List Tk) (h : SeesT s (
     have hsz := drop_nil_size hbuf hle
     have hp := hpul rfl
     simp only [List.map_cons, List.cons_append] at hraw
-    have hn : neutral s.scopes (k, v) := hneu (k, v) (by simp)
     let s0 : PState := { s with ticks := s.ticks + 1 }
-    have hlex := lexToken_neutral s0 k v _ hraw hn
+    have hlex := lexToken_tok s0 k v _ hraw hneu
     let tok : PTok := ⟨k, v, s.pulled⟩
     refine ⟨{ s0 with raw := toks.map (fun t => SEv.tok t.1 t.2) ++ [.eof], pulled := s.pulled + 1,
                        fileRef := s.pulled + 1, lexCalls := s.lexCalls + 1,
-                       buf := s.buf.push (some tok), idx := s.idx + 1 }, ?_,
-            ⟨⟨[], toks, false, ?_, rfl, rfl, by simp, ?_, ?_⟩, ?_, ?_⟩, rfl, rfl, bufExt_push s _ _ rfl, by simp, ?_⟩
+                       buf := s.buf.push (some tok), idx := s.idx + 1, scopes := lexScopes k s.scopes }, ?_,
+            ⟨⟨[], toks, false, ?_, rfl, rfl, by simp, ?_, ?_⟩, ?_, ?_⟩, hneu.lex k, rfl, bufExt_push s _ _ rfl, by simp, ?_⟩
     · have hlt : s0.buf.size < s0.idx + 1 := by show s.buf.size < s.idx + 1; omega
       have hfill : fill 1 1 { s with ticks := s.ticks + 1 } = .ok ()
           { s0 with raw := toks.map (fun t => SEv.tok t.1 t.2) ++ [.eof], pulled := s.pulled + 1,
-                    fileRef := s.pulled + 1, lexCalls := s.lexCalls + 1, buf := s.buf.push (some tok) } := by
+                    fileRef := s.pulled + 1, lexCalls := s.lexCalls + 1, buf := s.buf.push (some tok),
+                    scopes := lexScopes k s.scopes } := by
         show fill 1 1 s0 = _
         simp only [fill, hlt, ↓reduceIte, hlex]
         rfl
@@ -208,7 +251,7 @@ theorem advance_spec (s : PState) (k v : String) (toks : List Tk) (h : SeesT s (
       rfl
     · show (s.buf.push (some tok)).toList.drop (s.idx + 1) = _
       simp [hsz]
-    · intro t ht; exact hneu t (by simp [ht])
+    · exact hneu.lex k
     · intro _; show s.pulled + 1 = (s.buf.push (some tok)).size; simp; omega
     · show s.idx + 1 ≤ (s.buf.push (some tok)).size
       simp; omega
@@ -218,7 +261,7 @@ theorem advance_spec (s : PState) (k v : String) (toks : List Tk) (h : SeesT s (
 
 /-- `peek` at the end of the input returns `None` (and may record the end marker) -/
 theorem peek_end (s : PState) (h : SeesT s []) :
-    ∃ s', peek s = .ok none s' ∧ SeesT s' [] ∧ s'.scopes = s.scopes ∧ s'.idx = s.idx ∧
+    ∃ s', peek s = .ok none s' ∧ SeesT s' [] ∧ AllFalse s'.scopes ∧ s'.idx = s.idx ∧
       BufExt s s' ∧ s.buf.size ≤ s'.buf.size := by
   obtain ⟨⟨bt, rt, e, hbuf, hraw, htoks, he, hneu, hpul⟩, hle, hpos⟩ := h
   have hbt : bt = [] := by cases bt with | nil => rfl | cons _ _ => simp at htoks
@@ -235,7 +278,7 @@ theorem peek_end (s : PState) (h : SeesT s []) :
       have := (Array.getElem?_eq_some_iff.mp hget).1
       omega
     refine ⟨{ s with ticks := s.ticks + 1 }, ?_,
-      ⟨⟨[], [], true, by simpa using hbuf, by simpa using hraw, rfl, by simp, by simp, by simp⟩, hle, hpos⟩, rfl, rfl, fun j _ => rfl, Nat.le_refl _⟩
+      ⟨⟨[], [], true, by simpa using hbuf, by simpa using hraw, rfl, by simp, hneu, by simp⟩, hle, hpos⟩, hneu, rfl, fun j _ => rfl, Nat.le_refl _⟩
     simp only [peek, peekK, fill]
     simp [hlt, hget]
   | false =>
@@ -253,7 +296,7 @@ theorem peek_end (s : PState) (h : SeesT s []) :
       simp only [fill, hlt, ↓reduceIte, hlex]
       rfl
     refine ⟨{ s0 with fileRef := s.pulled + 1, lexCalls := s.lexCalls + 1, buf := s.buf.push none }, ?_,
-      ⟨⟨[], [], true, ?_, by simpa using hraw, rfl, by simp, by simp, by simp⟩, ?_, pos_push_none hpos⟩, rfl, rfl, bufExt_push s _ _ rfl, by simp⟩
+      ⟨⟨[], [], true, ?_, by simpa using hraw, rfl, by simp, hneu, by simp⟩, ?_, pos_push_none hpos⟩, hneu, rfl, bufExt_push s _ _ rfl, by simp⟩
     · show peekK 1 s = _
       unfold peekK
       simp only [show ((1 : Nat) == 0) = false from rfl, Bool.false_eq_true, ↓reduceIte]
@@ -270,13 +313,13 @@ theorem peek_end (s : PState) (h : SeesT s []) :
 /-- `_fill(n)` when at least `n` tokens are still to come: buffers them, changes nothing else -/
 theorem fill_spec : ∀ (fuel n : Nat) (s : PState) (toks : List Tk), SeesT s toks → n ≤ toks.length →
     n ≤ fuel + (s.buf.size - s.idx) →
-    ∃ s', fill fuel n s = .ok () s' ∧ SeesT s' toks ∧ s'.scopes = s.scopes ∧ s'.idx = s.idx ∧
+    ∃ s', fill fuel n s = .ok () s' ∧ SeesT s' toks ∧ AllFalse s'.scopes ∧ s'.idx = s.idx ∧
       BufExt s s' ∧ s.buf.size ≤ s'.buf.size ∧ s.idx + n ≤ s'.buf.size ∧ s'.ticks = s.ticks := by
   intro fuel
   induction fuel with
   | zero =>
     intro n s toks h hn hf
-    refine ⟨s, rfl, h, rfl, rfl, fun _ _ => rfl, Nat.le_refl _, ?_, rfl⟩
+    refine ⟨s, rfl, h, h.allFalse, rfl, fun _ _ => rfl, Nat.le_refl _, ?_, rfl⟩
     have := h.idx_le; omega
   | succ fuel ih =>
     intro n s toks h hn hf
@@ -299,11 +342,11 @@ theorem fill_spec : ∀ (fuel n : Nat) (s : PState) (toks : List Tk), SeesT s to
         obtain ⟨k, v⟩ := t
         have hp := hpul rfl
         simp only [List.map_cons, List.cons_append] at hraw
-        have hn' : neutral s.scopes (k, v) := hneu (k, v) (by simp)
-        have hlex := lexToken_neutral s k v _ hraw hn'
+        have hlex := lexToken_tok s k v _ hraw hneu
         let tok : PTok := ⟨k, v, s.pulled⟩
         let s1 : PState := { s with raw := rt'.map (fun t => SEv.tok t.1 t.2) ++ [.eof], pulled := s.pulled + 1,
-                                    fileRef := s.pulled + 1, lexCalls := s.lexCalls + 1, buf := s.buf.push (some tok) }
+                                    fileRef := s.pulled + 1, lexCalls := s.lexCalls + 1, buf := s.buf.push (some tok),
+                                    scopes := lexScopes k s.scopes }
         have hs1 : SeesT s1 toks := by
           refine ⟨⟨bt ++ [tok], rt', false, ?_, rfl, ?_, by simp, ?_, ?_⟩, ?_, ?_⟩
           · show (s.buf.push (some tok)).toList.drop s.idx = _
@@ -311,7 +354,7 @@ theorem fill_spec : ∀ (fuel n : Nat) (s : PState) (toks : List Tk), SeesT s to
             rw [List.drop_append_of_le_length (by simp; exact hle), hbuf]
             simp
           · rw [htoks]; simp [tok]
-          · intro t ht; exact hneu t (by simp [ht])
+          · exact hneu.lex k
           · intro _; show s.pulled + 1 = (s.buf.push (some tok)).size; simp; omega
           · show s.idx ≤ (s.buf.push (some tok)).size; simp; omega
           · exact pos_push_some hpos (by show s.pulled = s.buf.size; exact hp)
@@ -323,13 +366,13 @@ theorem fill_spec : ∀ (fuel n : Nat) (s : PState) (toks : List Tk), SeesT s to
         · exact BufExt.trans (bufExt_push s _ s1 rfl) hext (by show s.buf.size ≤ (s.buf.push (some tok)).size; simp)
         · have : s.buf.size ≤ s1.buf.size := by show s.buf.size ≤ (s.buf.push (some tok)).size; simp
           omega
-    · refine ⟨s, by simp [fill, hlt], h, rfl, rfl, fun _ _ => rfl, Nat.le_refl _, by omega, rfl⟩
+    · refine ⟨s, by simp [fill, hlt], h, h.allFalse, rfl, fun _ _ => rfl, Nat.le_refl _, by omega, rfl⟩
 
 
 /-- `peek(k)` (k >= 1) when at least `k` tokens are still to come -/
 theorem peekK_spec (kk : Nat) (s : PState) (toks : List Tk) (t : Tk) (h : SeesT s toks)
     (ht : toks[kk]? = some t) :
-    ∃ s', peekK (kk + 1) s = .ok (some ⟨t.1, t.2, s.idx + kk⟩) s' ∧ SeesT s' toks ∧ s'.scopes = s.scopes ∧
+    ∃ s', peekK (kk + 1) s = .ok (some ⟨t.1, t.2, s.idx + kk⟩) s' ∧ SeesT s' toks ∧ AllFalse s'.scopes ∧
       s'.idx = s.idx ∧ BufExt s s' ∧ s.buf.size ≤ s'.buf.size := by
   have hlen : kk + 1 ≤ toks.length := by
     have := (List.getElem?_eq_some_iff.mp ht).1; omega
@@ -376,12 +419,12 @@ theorem peekK_spec (kk : Nat) (s : PState) (toks : List Tk) (t : Tk) (h : SeesT 
 /-- going back over one token that is still in the buffer (`_reset(mark)` right after an `_advance`) -/
 theorem reset_one (s : PState) (toks : List Tk) (m : Nat) (t : PTok) (h : SeesT s toks) (hi : s.idx = m + 1)
     (hb : s.buf[m]? = some (some t)) :
-    ∃ s', reset m s = .ok () s' ∧ SeesT s' ((t.kind, t.val) :: toks) ∧ s'.scopes = s.scopes ∧ s'.idx = m ∧
+    ∃ s', reset m s = .ok () s' ∧ SeesT s' ((t.kind, t.val) :: toks) ∧ AllFalse s'.scopes ∧ s'.idx = m ∧
       BufExt s s' ∧ s.buf.size ≤ s'.buf.size := by
   obtain ⟨⟨bt, rt, e, hbuf, hraw, htoks, he, hneu, hpul⟩, hle, hpos⟩ := h
   refine ⟨{ s with idx := m, ticks := s.ticks + 1 }, rfl,
     ⟨⟨t :: bt, rt, e, ?_, hraw, by simp [htoks], he, hneu, hpul⟩, by show m ≤ s.buf.size; omega, hpos⟩,
-    rfl, rfl, fun _ _ => rfl, Nat.le_refl _⟩
+    hneu, rfl, fun _ _ => rfl, Nat.le_refl _⟩
   show s.buf.toList.drop m = _
   have hlt : m < s.buf.toList.length := by
     have := (Array.getElem?_eq_some_iff.mp hb).1; simpa using this
